@@ -110,6 +110,34 @@ pub fn check_entry(klen: usize, vlen: usize) -> Result<(), String> {
             }
         }
     }
+    // long values once more with incompressible content through every codec: a length is only
+    // framed losslessly if the bytes it announces all come back, whatever sits between the framing
+    // and the sink (the patterned content above compresses to almost nothing)
+    if vlen >= (1 << 14) && vlen < (1 << 22) && klen <= 2 {
+        let mut x = 0x2545_F491_4F6C_DD1Du64 ^ vlen as u64;
+        let noise: Vec<u8> = (0..vlen)
+            .map(|_| {
+                x ^= x << 13;
+                x ^= x >> 7;
+                x ^= x << 17;
+                (x >> 24) as u8
+            })
+            .collect();
+        let mut noisy = entries.clone();
+        let at = noisy.iter().position(|e| e.1.len() == vlen).unwrap_or(0);
+        noisy[at].1 = noise;
+        for (c, lv) in vlib::fam::CODECS_ONE {
+            if c == 0 {
+                continue;
+            }
+            let b = write_file(&cfg.with_codec(c, lv), &noisy)?;
+            let got = run_query(&b, &Query::Scan { rev: false, mode: CursorMode::Fresh })
+                .map_err(|e| format!("entry with key length {klen}, an incompressible value of length {vlen}, codec id {c}: {e}"))?;
+            if got != noisy {
+                return Err(format!("entry with key length {klen}, an incompressible value of length {vlen}, codec id {c}: the forward scan does not return the inserted bytes"));
+            }
+        }
+    }
     let bytes = write_file(&cfg, &entries)?;
     for q in [Query::Scan { rev: false, mode: CursorMode::Fresh }, Query::Scan { rev: true, mode: CursorMode::Fresh }] {
         let got = run_query(&bytes, &q)?;
@@ -230,7 +258,7 @@ pub fn run(tier: Tier) -> i32 {
     }
     rep.acc.merge(a3);
     rep.acc.merge(big_thread.join().expect("big-entry thread panicked"));
-    rep.set("rule", json!("E4: all 2^32 length values through the verif re-export of the private codec: encode must produce 1..=5 bytes, and decode must return the value and consume exactly the encoded length on (i) the exact bytes, (ii) the bytes followed by 0xFF.., (iii) followed by 0x00..; E2: entries whose key or value length is 2^7, 2^14, 2^21 -1/0/+1 (plus one 2^28-byte value; thorough: 2^28 -1/0/+1 for keys and values) written through Writer, read back through Reader (both scans; alone in its file; and sharing one block with its neighbours, reached through GE/LE/EQ seeks), and inserted into a Sorter (alone and with neighbours, with and without a spill) and streamed back; distinct_nontrivial = boundary entries run through the API (the 2^32 sweep exercises the two codec functions only: call-site defects between 2^28+2 and 2^32-1 bytes are out of reach, such entries cannot be allocated here)"));
+    rep.set("rule", json!("E4: all 2^32 length values through the verif re-export of the private codec: encode must produce 1..=5 bytes, and decode must return the value and consume exactly the encoded length on (i) the exact bytes, (ii) the bytes followed by 0xFF.., (iii) followed by 0x00..; E2: entries whose key or value length is 2^7, 2^14, 2^21 -1/0/+1 (plus one 2^28-byte value; thorough: 2^28 -1/0/+1 for keys and values) written through Writer, read back through Reader (both scans; alone in its file; and sharing one block with its neighbours, reached through GE/LE/EQ seeks), and inserted into a Sorter (alone and with neighbours, with and without a spill) and streamed back; values of 2^14 and 2^21 +-1 bytes also with incompressible content through every codec; distinct_nontrivial = boundary entries run through the API (the 2^32 sweep exercises the two codec functions only: call-site defects between 2^28+2 and 2^32-1 bytes are out of reach, such entries cannot be allocated here)"));
     rep.set("bound", json!({"values": "0..=2^32-1 (complete)", "api_boundary_entries": pairs.len() + quick_big.len(), "largest_api_length": lens.iter().max()}));
     rep.assume("API-level entries of 2^32-1 bytes are not run (>= 12 GiB of copies per case); that boundary is covered at codec level only");
     rep.finish()
